@@ -17,11 +17,14 @@ theorem dueBeforeEvent_denseSegs (fwd : Bool) (xold te : K) (ip : Interp K) (tev
     unfold dueBeforeEvent
     cases fwd <;> simp only [Bool.false_eq_true, if_false, if_true] <;> split_ifs <;> simp [ih]
 
-theorem terminalSamples_denseSegs (fwd : Bool) (xold te : K) (ip : Option (Interp K)) (s : St K) :
-    (terminalSamples fwd xold te ip s).denseSegs = s.denseSegs := by
+theorem terminalSamples_denseSegs (fwd : Bool) (xold x te : K) (ip : Option (Interp K)) (s : St K) :
+    (terminalSamples fwd xold x te ip s).denseSegs = s.denseSegs := by
   unfold terminalSamples
   split
   · exact dueBeforeEvent_denseSegs ..
+  · split
+    · dsimp only; split_ifs <;> rfl
+    · rfl
   · rfl
 
 theorem pushTerminal_denseSegs (s : St K) (t : K) (y : Array K) : (pushTerminal s t y).denseSegs = s.denseSegs := by
@@ -30,8 +33,8 @@ theorem pushTerminal_denseSegs (s : St K) (t : K) (y : Array K) : (pushTerminal 
   · split <;> rfl
   · rfl
 
-theorem processEvs_denseSegs (fwd : Bool) (xold : K) (ip : Option (Interp K)) :
-    ∀ (evs : List (K × Nat × Array K)) (s : St K), (processEvs fwd xold ip s evs).1.denseSegs = s.denseSegs := by
+theorem processEvs_denseSegs (fwd : Bool) (xold x : K) (ip : Option (Interp K)) :
+    ∀ (evs : List (K × Nat × Array K)) (s : St K), (processEvs fwd xold x ip s evs).1.denseSegs = s.denseSegs := by
   intro evs
   induction evs with
   | nil => intro s; rfl
